@@ -33,6 +33,16 @@ int32 __wrap_psGetEntropy(unsigned char *bytes, uint32 size, void *userPtr)
     return (int32) size;
 }
 
+/* the library's global PRNG keeps state across scenarios of one process: bypass it as well
+   (link with --wrap=psGetPrngLocked) so that a scenario's bytes depend on its seed only */
+int32_t __wrap_psGetPrngLocked(unsigned char *bytes, psSize_t size, void *userPtr)
+{ return __wrap_psGetEntropy(bytes, size, userPtr); }
+
+/* virtual clock (link with --wrap=psGetTime); `tick <secs>` advances it */
+static long g_vtime = 1592222400;     /* 2020-06-15 12:00:00 UTC, consistent with the pinned calendar */
+int32 __wrap_psGetTime(psTime_t *t, void *userPtr)
+{ (void) userPtr; if (t) { t->psTimeAbstract[0] = (unsigned long long) g_vtime; t->psTimeAbstract[1] = 0; } return (int32) g_vtime; }
+
 /* ---------------------------------------------------------------- TLS 1.3 inner content types
    link with --wrap=csAesGcmEncryptTls13,--wrap=csChacha20Poly1305IetfEncryptTls13: the sender's
    TLSInnerPlaintext is visible here, so every sealed record's inner type is known to the driver */
@@ -61,6 +71,9 @@ typedef struct { unsigned char *b; size_t len; rmeta_t m[MQ]; int mh, mt; } queu
 static void q_init(queue_t *q) { if (!q->b) q->b = malloc(QCAP); q->len = 0; q->mh = q->mt = 0; }
 static void q_meta_push(queue_t *q, int outer, int inner, int sealed) { rmeta_t *m = &q->m[q->mt++ % MQ]; m->outer = outer; m->inner = inner; m->sealed = sealed; }
 static rmeta_t q_meta_pop(queue_t *q) { rmeta_t z = { -1, -1, -1 }; if (q->mh == q->mt) return z; return q->m[q->mh++ % MQ]; }
+static uint64_t g_wire_hash[2] = { 1469598103934665603ULL, 1469598103934665603ULL }; static size_t g_wire_len[2];
+static int g_sendchunk = 0;     /* >0: drain outdata by partial sends of this many bytes */
+static int g_callsep = 0;       /* print "/" after every matrixSslReceivedData cycle */
 static void q_push(queue_t *q, const unsigned char *d, size_t l) { if (q->len + l <= QCAP) { memcpy(q->b + q->len, d, l); q->len += l; } }
 static void q_pop(queue_t *q, size_t l) { memmove(q->b, q->b + l, q->len - l); q->len -= l; }
 /* length of the first TLS record in the queue (0 if none / incomplete) */
@@ -127,8 +140,11 @@ static size_t flush_out(peer_t *p) {
     if (!p->ssl) return 0;
     while ((n = matrixSslGetOutdata(p->ssl, &buf)) > 0) {
         queue_t *q = p->is_server ? &g_s2c : &g_c2s;
+        if (g_sendchunk > 0 && n > g_sendchunk) n = g_sendchunk;
+        for (int32 hi = 0; hi < n; hi++) { g_wire_hash[p->is_server] = (g_wire_hash[p->is_server] ^ buf[hi]) * 1099511628211ULL; }
+        g_wire_len[p->is_server] += (size_t) n;
         q_push(q, buf, (size_t) n);
-        {   /* per-record metadata: outer type, sealed?, inner type */
+        if (g_sendchunk == 0) {   /* per-record metadata: outer type, sealed?, inner type */
             size_t off = 0; int is13 = ACTV_VER(p->ssl, v_tls_1_3_any) ? 1 : 0;
             P("out=[");
             while (off + 5 <= (size_t) n) {
@@ -176,10 +192,11 @@ static void feed(peer_t *p, const unsigned char *d, size_t l, size_t chunk) {
             if (rc == MATRIXSSL_REQUEST_RECV) { break; }
             if (rc == MATRIXSSL_SUCCESS) { P("OK "); break; }
             if (rc == MATRIXSSL_REQUEST_CLOSE) { P("CLOSE "); break; }
-            P("E%d ", rc); return;
+            P("E%d ", rc); if (g_callsep) P("{n=%zu in=%d}/ ", n, (int) p->ssl->inlen); return;
         }
         /* outgoing data produced by this input goes to the wire */
         flush_out(p);
+        if (g_callsep) P("{n=%zu in=%d}/ ", n, (int) p->ssl->inlen);
         if (rc == MATRIXSSL_REQUEST_CLOSE) return;
     }
 }
@@ -221,6 +238,13 @@ static int sess_new(scfg_t *c) {
     peer_free(&g_c); peer_free(&g_s);
     memset(&g_c, 0, sizeof g_c); memset(&g_s, 0, sizeof g_s); g_s.is_server = 1;
     memset(g_ilog, 0, sizeof g_ilog);
+    if (!c->keep_skeys) {            /* independent scenarios: reset the library's global state (session cache, PRNG) */
+        if (g_skeys_persist) { matrixSslDeleteKeys(g_skeys_persist); g_skeys_persist = NULL; }
+        if (g_saved_sid) { matrixSslDeleteSessionId(g_saved_sid); g_saved_sid = NULL; }
+        matrixSslClose(); if (matrixSslOpen() < 0) return -9;
+        g_vtime = 1592222400;
+    }
+    g_wire_hash[0] = g_wire_hash[1] = 1469598103934665603ULL; g_wire_len[0] = g_wire_len[1] = 0;
     q_init(&g_c2s); q_init(&g_s2c);
     ent_seed(c->seed);
     g_pin_year = c->year ? c->year : 2020;
